@@ -97,6 +97,20 @@ pub struct LenField {
     pub label: &'static str,
 }
 
+thread_local! {
+    static FILL_STYLE: std::cell::Cell<u8> = const { std::cell::Cell::new(0) };
+}
+
+pub const FILL_STYLES: [u8; 6] = [0, 1, 2, 3, 4, 5];
+
+/// Run `f` (typically a catalogue constructor) with opaque field contents drawn from another pattern.
+pub fn with_fill_style<T>(style: u8, f: impl FnOnce() -> T) -> T {
+    let old = FILL_STYLE.with(|s| s.replace(style));
+    let r = f();
+    FILL_STYLE.with(|s| s.set(old));
+    r
+}
+
 /// Wire builder that remembers where every length field is, so that a "lying length" deviation
 /// can overwrite exactly that field and nothing else.
 #[derive(Clone, Debug, Default)]
@@ -137,10 +151,34 @@ impl W {
         self.buf.extend_from_slice(b);
         self
     }
-    /// `n` bytes following a recognisable pattern starting at `seed`
+    /// `n` bytes of opaque content. The pattern depends on the thread's fill style (see
+    /// `with_fill_style`): 0 = recognisable counting pattern starting at `seed` (default),
+    /// 1 = all zero, 2 = `00 ff 00 ff ..`, 3 = `00 80 ff 7f ..` (leading zero before a high
+    /// bit), 4 = all ff, 5 = `80 00 00 ..` (high bit first).
     pub fn fill(&mut self, n: usize, seed: u8) -> &mut W {
+        let style = FILL_STYLE.with(|s| s.get());
         for i in 0..n {
-            self.buf.push(seed.wrapping_add((i % 251) as u8));
+            let b = match style {
+                0 => seed.wrapping_add((i % 251) as u8),
+                1 => 0,
+                2 => {
+                    if i % 2 == 0 {
+                        0
+                    } else {
+                        0xff
+                    }
+                }
+                3 => [0x00, 0x80, 0xff, 0x7f][i % 4],
+                4 => 0xff,
+                _ => {
+                    if i == 0 {
+                        0x80
+                    } else {
+                        0
+                    }
+                }
+            };
+            self.buf.push(b);
         }
         self
     }
